@@ -322,9 +322,10 @@ def make_user_error_class():
 class Oracle:
     """Deterministic pseudo-random, type-directed resolver data."""
 
-    def __init__(self, s, seed, adversarial=0.08, fail=0.08):
+    def __init__(self, s, seed, adversarial=0.08, fail=0.08, faults=None):
         self.s, self.seed, self.adv, self.fail = s, seed, adversarial, fail
         self.opaques = {}
+        self.faults = {tuple(k): v for k, v in (faults or {}).items()}
 
     def rng_for(self, *key):
         return random.Random(zlib.crc32(repr((self.seed,) + key).encode()))
@@ -419,6 +420,25 @@ class Oracle:
     def resolve(self, tname, fname, ftype, path):
         """('ret', value) | ('raise', msg, is_graphql, ext)"""
         rng = self.rng_for("r", tuple(path), tname, fname)
+        kind = self.faults.get(tuple(path))
+        if kind:
+            msg = USER_PREFIX + "/".join(map(str, path))
+            if kind == "raise":
+                return ("raise", msg, False, False)
+            if kind == "raise_gql":
+                return ("raise", msg, True, False)
+            if kind == "raise_gql_ext":
+                return ("raise", msg, True, True)
+            if kind == "exc_value":
+                return ("ret", ValueError(msg))
+            if kind == "null":
+                return ("ret", None)
+            if kind == "garbage":
+                return ("ret", Opaque("object"))
+            if kind == "scalar_for_composite":
+                return ("ret", 7)
+            if kind == "bad_typename":
+                return ("ret", {"_typename": "Nope", "__tr": "Nope"})
         r = rng.random()
         if r < self.fail:
             kind = rng.choice(["raise", "raise_gql", "raise_gql_ext", "value"])
